@@ -50,6 +50,7 @@ class Run:
         self.replayers = []        # callables(ob) -> dict or None
         self.unsupported = []      # (function, reason) whose obligations could not be generated
         self.notes = {}
+        self.extra_functions = []  # records of functions under contract produced by other means than Engine.verify (effect clauses)
 
     # ---- building ---------------------------------------------------------------------------------------------------
     def verify(self, *quals, extra_post=None):
@@ -138,9 +139,9 @@ class Run:
         replay_paths = []
         weak = []
         for o in list(violations):
-            rp, reproduced = self.write_replay(o, quiet=bool(o.meta.get("unannotated_loop")))
+            rp, reproduced = self.write_replay(o, quiet=bool(o.meta.get("unannotated_loop") or o.meta.get("weak")))
             replay_paths.append(rp)
-            if o.meta.get("unannotated_loop") and not reproduced:
+            if (o.meta.get("unannotated_loop") or o.meta.get("weak")) and not reproduced:
                 # the path crossed a loop the sidecar has no invariant for: the failed proof is not a refutation unless it replays
                 violations.remove(o)
                 weak.append(o)
@@ -232,6 +233,7 @@ class Run:
             fuc.append({"function": r.qual, "body_sha": r.body_hash, "paths": r.paths, "normal_exit_paths": r.normal_paths,
                         "raising_paths": r.raise_paths, "obligations": len(r.obligations),
                         "requires": c.requires, "ensures": c.ensures, "raises": c.raises, "modifies": c.modifies})
+        fuc += self.extra_functions
         kinds = {}
         for o in obs:
             kinds[o.kind] = kinds.get(o.kind, 0) + 1
